@@ -13,3 +13,8 @@ ASSUMPTIONS = ["every thread that claimed a slot eventually publishes it (schedu
 def run(ctx):
     f = ctx.facts("default")
     ctx.run_rule("R1", hc.rule_C03, f)
+    # "the snapshot taken after all threads have finished describes exactly all observations": the bucket a value lands in is part of the description
+    from . import C06, C08
+    ctx.rule("R6", "an observation is recorded in the bucket the snapshot attributes it to, on the direct and on the local path (shared with C08.R4): first bound with v <= bound, "
+                   "count and sum unconditional")
+    ctx.run_rule("R6", lambda c: C06._as(c, "R6", lambda s_: C08.rule_R4(s_, f)))
